@@ -137,6 +137,11 @@ pub struct Model {
     pub connect_spec: Option<ConnectSpec>,
     pub pending_connect: bool,
     pub connecting_cmd: &'static str,
+    /// ops that may be steppable (NotPolled / RecOk / Completing); ascending = executor order
+    pub wake: BTreeSet<usize>,
+    pub by_pid: std::collections::HashMap<u16, Vec<usize>>,
+    /// number of live op tasks that still own a handle clone
+    pub live_handles: usize,
 }
 
 fn pat_matches(p: &ResPat, got: &str) -> bool {
@@ -177,6 +182,9 @@ impl Model {
             connect_spec: None,
             pending_connect: false,
             connecting_cmd: "connect",
+            wake: BTreeSet::new(),
+            by_pid: std::collections::HashMap::new(),
+            live_handles: 0,
         }
     }
 
@@ -237,11 +245,17 @@ impl Model {
             sub: None,
             inflight: false,
         });
+        self.wake.insert(self.ops.len() - 1);
+        self.live_handles += 1;
         self.ops.len() - 1
     }
 
     pub fn cancel(&mut self, op: usize) {
+        if self.ops[op].alive && self.ops[op].st != St::Done {
+            self.live_handles -= 1;
+        }
         self.ops[op].alive = false;
+        self.wake.remove(&op);
         if let Some(s) = self.ops[op].sub {
             // the receiver lives inside the subscribe future until it completes
             if self.subs[s].stream.is_none() && self.ops[op].st != St::Done {
@@ -287,6 +301,9 @@ impl Model {
             match o.st {
                 St::Queued | St::AwaitAck | St::AwaitRec | St::RelQueued | St::AwaitComp => {
                     o.st = St::Completing(ResPat::Exact("Err:ContextExited".into()));
+                    if o.alive {
+                        self.wake.insert(i);
+                    }
                 }
                 _ => {}
             }
@@ -305,11 +322,7 @@ impl Model {
 
     fn handles_alive(&self) -> bool {
         // every live, not yet finished op task owns a clone
-        self.master_alive
-            || self
-                .ops
-                .iter()
-                .any(|o| o.alive && o.st != St::Done)
+        self.master_alive || self.live_handles > 0
     }
 
     // ------------------------------------------------------------------------------------------
@@ -341,13 +354,20 @@ impl Model {
                 self.ctx_step();
                 continue;
             }
-            if let Some(i) = (0..self.ops.len()).find(|&i| {
+            let next = self.wake.iter().copied().find(|&i| {
                 let o = &self.ops[i];
                 o.alive
                     && !o.held
                     && matches!(o.st, St::NotPolled | St::RecOk | St::Completing(_))
-            }) {
+            });
+            if let Some(i) = next {
                 self.op_step(i);
+                if !matches!(
+                    self.ops[i].st,
+                    St::NotPolled | St::RecOk | St::Completing(_)
+                ) {
+                    self.wake.remove(&i);
+                }
                 continue;
             }
             if let Some(i) = (0..self.streams.len()).find(|&i| {
@@ -456,6 +476,9 @@ impl Model {
 
     fn complete(&mut self, op: usize, res: ResPat) {
         self.ops[op].st = St::Completing(res);
+        if self.ops[op].alive {
+            self.wake.insert(op);
+        }
     }
 
     fn write_fails(&mut self) -> bool {
@@ -564,7 +587,8 @@ impl Model {
     }
 
     fn find_op(&self, pid: u16, st: &St, want_qos: Option<u8>, kind: u8) -> Option<usize> {
-        (0..self.ops.len()).find(|&i| {
+        let cands = self.by_pid.get(&pid)?;
+        cands.iter().copied().find(|&i| {
             let o = &self.ops[i];
             o.pid == Some(pid)
                 && &o.st == st
@@ -621,6 +645,7 @@ impl Model {
                                 self.hit("pubrec-fail");
                             } else if self.ops[op].alive {
                                 self.ops[op].st = St::RecOk;
+                                self.wake.insert(op);
                                 self.hit("pubrec-ok");
                             } else {
                                 // The caller abandoned the publish; the handshake still has to be
@@ -791,6 +816,7 @@ impl Model {
                         res: ResPat::Exact("Err:CodecError".into()),
                     });
                     self.ops[op].st = St::Done;
+                    self.live_handles -= 1;
                     self.hit("invalid-request-refused");
                 } else if self.ctx == CtxSt::Gone {
                     self.expected.push(Expect::Done {
@@ -798,6 +824,7 @@ impl Model {
                         res: ResPat::Exact("Err:ContextExited".into()),
                     });
                     self.ops[op].st = St::Done;
+                    self.live_handles -= 1;
                     self.hit("op-after-context-gone");
                 } else {
                     self.queue.push_back(Msg::First(op));
@@ -811,6 +838,7 @@ impl Model {
                         res: ResPat::Exact("Err:ContextExited".into()),
                     });
                     self.ops[op].st = St::Done;
+                    self.live_handles -= 1;
                 } else {
                     self.queue.push_back(Msg::Pubrel(op));
                     self.ops[op].st = St::RelQueued;
@@ -828,6 +856,7 @@ impl Model {
                 }
                 self.expected.push(Expect::Done { op, res });
                 self.ops[op].st = St::Done;
+                self.live_handles -= 1;
             }
             _ => {}
         }
@@ -850,21 +879,21 @@ impl Model {
     // ------------------------------------------------------------------------------------------
     // comparison
 
-    fn outstanding_pids(&self, except: usize) -> Vec<u16> {
-        self.ops
-            .iter()
-            .enumerate()
-            .filter(|(i, o)| {
-                *i != except
-                    && o.pid.is_some()
-                    && matches!(
-                        o.st,
-                        St::AwaitAck | St::AwaitRec | St::RecOk | St::RelQueued | St::AwaitComp
-                    )
-                    && !matches!(o.spec, OpSpec::Ping)
+    fn pid_in_use(&self, pid: u16, except: usize) -> bool {
+        self.by_pid
+            .get(&pid)
+            .map(|v| {
+                v.iter().any(|&i| {
+                    let o = &self.ops[i];
+                    i != except
+                        && matches!(
+                            o.st,
+                            St::AwaitAck | St::AwaitRec | St::RecOk | St::RelQueued | St::AwaitComp
+                        )
+                        && !matches!(o.spec, OpSpec::Ping)
+                })
             })
-            .map(|(_, o)| o.pid.unwrap())
-            .collect()
+            .unwrap_or(false)
     }
 
     fn match_wire(&mut self, pat: &WirePat, got: &CPacket) -> Result<(), Mismatch> {
@@ -971,7 +1000,7 @@ impl Model {
                 }
                 // identifiers assigned by the library: non-zero (decoder), unique among outstanding
                 if let Some(pid) = gpid {
-                    if self.outstanding_pids(op).contains(&pid) {
+                    if self.pid_in_use(pid, op) {
                         return Err(Mismatch {
                             rule: "pid-in-use".into(),
                             detail: format!(
@@ -982,6 +1011,15 @@ impl Model {
                         });
                     }
                     self.ops[op].pid = Some(pid);
+                    let ops = &self.ops;
+                    let v = self.by_pid.entry(pid).or_default();
+                    v.retain(|&i| {
+                        matches!(
+                            ops[i].st,
+                            St::AwaitAck | St::AwaitRec | St::RecOk | St::RelQueued | St::AwaitComp
+                        )
+                    });
+                    v.push(op);
                 }
                 if let CPacket::Subscribe(g) = got {
                     let sid = g
@@ -1227,6 +1265,9 @@ impl Model {
 
     /// abstract state key (for reporting distinct states; never used to prune)
     pub fn state_key(&self) -> u64 {
+        if self.ops.len() > 64 {
+            return 0;
+        }
         let mut s = String::new();
         for o in &self.ops {
             s.push_str(&format!(
